@@ -461,7 +461,7 @@ void COO_to_CSC(const COOMatrix* A, CSCMatrix* B, std::vector<T>& A_vals,
     // Calculate indptr
     for (int i = 0; i < B->nnz; i++)
     {
-        int col = A->idx1[i];
+        int col = A->idx2[i];
         B->idx1[col+1]++;
     }
     for (int i = 0; i < B->n_cols; i++)
@@ -477,8 +477,8 @@ void COO_to_CSC(const COOMatrix* A, CSCMatrix* B, std::vector<T>& A_vals,
     }
     for (int i = 0; i < B->nnz; i++)
     {
-        int col = A->idx1[i];
-        int row = A->idx2[i];
+        int row = A->idx1[i];
+        int col = A->idx2[i];
         int index = B->idx1[col] + ctr[col]++;
         B->idx2[index] = row;
         if (A->data_size()) // Checking that matrix has values (not S)
